@@ -198,6 +198,21 @@ theorem C07_reasm_purge_exact_unordered (q : Q) (t : BitVec 32)
   · rw [hq']; exact dropWhile_not_eq_filter _ _ hmono
   · rw [← takeWhile_not_eq_filter _ _ hmono]; exact hbytes
 
+/-- the premise of the third clause of `C07_reasm_purge_exact_unordered` is what an honest peer gives: fragments with TSNs
+`t0 + o`, offsets strictly increasing and below 2^31 (the slice is TSN-sorted by `pushWithError`, the association's window),
+new cumulative TSN `t0 + τ` with `τ < 2^31`. Then EXACTLY the fragments at or below the point are removed and their bytes given
+back, every later fragment is kept in order. -/
+theorem C07_reasm_purge_exact_unordered_window (q : Q) (t0 : BitVec 32) (τ : Nat) (hτ : τ < 2^31) (offs : List Nat)
+    (hmap : q.unorderedChunks.map (·.tsn) = offs.map (fun o => t0 + BitVec.ofNat 32 o))
+    (hs : offs.Pairwise (· < ·)) (hlt : ∀ o ∈ offs, o < 2^31)
+    (hc : bytesOf q.unorderedChunks ≤ q.nBytes.toNat) (hb : q.nBytes.toNat < 2^63) :
+    let t := t0 + BitVec.ofNat 32 τ
+    let q' := q.forwardTSNForUnordered t
+    q'.unorderedChunks = q.unorderedChunks.filter (fun c => sna32GT c.tsn t) ∧
+    q'.nBytes.toNat + bytesOf (q.unorderedChunks.filter (fun c => !sna32GT c.tsn t)) = q.nBytes.toNat :=
+  (C07_reasm_purge_exact_unordered q (t0 + BitVec.ofNat 32 τ) hc hb).2.2.1
+    (unordered_window_mono t0 τ hτ q.unorderedChunks offs hmap hs hlt)
+
 /-! ## Part 2: honest runs with skips — ordered DATA (SSN, window 2^15) and ordered I-DATA (MID, window 2^31) -/
 
 /-- ✱ **headline.** For every admissible run (pushes in any order, reads of any size, skips) from the empty queue there
